@@ -136,6 +136,26 @@ class C14(Prop):
                 if derived.duration != want(s, e):
                     acc.violation("wrong-duration-in-derived-schedule", f"dataclasses.replace(..., start_time={ss}, end_time={hhmm(e)}).duration = {derived.duration!r}, want {want(s, e)}",
                                   {"start": ss, "end": hhmm(e), "got": derived.duration})
+        # the two documented parameters given by name, in either order, and through functools.partial
+        import functools
+
+        for e in [s, (s + 1) % 1440, (s - 1) % 1440, r.randrange(1440), r.randrange(1440)]:
+            ee_ = hhmm(e)
+            forms = {"keywords": lambda: calc(start_time=ss, end_time=ee_), "keywords-end-first": lambda: calc(end_time=ee_, start_time=ss),
+                     "positional-then-keyword": lambda: calc(ss, end_time=ee_), "partial-end-first": lambda: functools.partial(calc, end_time=ee_)(ss),
+                     "unpacked-mapping-end-first": lambda: calc(**{"end_time": ee_, "start_time": ss})}
+            for form, fn in forms.items():
+                acc.ev()
+                acc.count("calls_by_keyword")
+                try:
+                    got = fn()
+                except Exception as exc:
+                    acc.violation(f"raised:{form}", f"calc_duration called as {form} with start {ss} end {ee_} raised {type(exc).__name__}: {exc}", {"start": ss, "end": ee_})
+                    continue
+                if got != want(s, e):
+                    acc.violation(f"wrong-duration:{form}", f"calc_duration called as {form} with start {ss} end {ee_} = {got!r}, want {want(s, e)}",
+                                  {"start": ss, "end": ee_, "got": got, "form": form})
+        self.rec.drain()
         for e in [s, (s + 1) % 1440, (s - 1) % 1440] + [r.randrange(1440) for _ in range(5)]:
             sch = self.parser.SwitcherSchedule("0", False, set(), ss, hhmm(e))
             acc.count("observed_via_schedule_object")
